@@ -14,7 +14,7 @@ C-string invariant `NoNul`.  The memory-safety theorems do not even need it (a
 NUL inside the list reads as a terminator and stops the scan early); the
 declarative ones do, and say so.
 -/
-import LA.Lemmas.PmSpec
+import LA.Lemmas.PmGlob
 import LA.Lemmas.Match
 set_option linter.unusedSimpArgs false
 namespace LA.C16
@@ -224,6 +224,77 @@ theorem slash_run (cfg : Cfg) (p s : List Nat) (fl : Flags) (pi si pj sj d c' : 
   have : ¬ (d ≠ C_SLASH ∧ d ≠ 0) := by rcases hd with h | h <;> simp [h]
   simp only [hp, hs, hpk, hsk, hc']
   simp [this, hne]
+
+/-! ## Against an independent declarative specification (wildcard fragment) -/
+
+/-- `pm()` on patterns made of ordinary characters, `?` and `*`, against slash-free pathnames, is
+textbook glob matching (`LA.Pm.Glob`, an inductive relation that knows nothing of the C), for
+every flag set. -/
+theorem pm_spec_fragment (cfg : Cfg) (hg : cfg.guardClass = true) (p s : List Nat) (fl : Flags)
+    (hp : Frag p) (hs : NoNul s) (hns : ∀ c ∈ s, c ≠ C_SLASH) :
+    pm cfg p s fl 0 0 = .yes ↔ Glob p s := by
+  rw [pm_eq, dotSlash_noSlash hns 0 (Nat.zero_le _), dotSlash_frag hp 0 (Nat.zero_le _)]
+  simpa using pmLoop_glob cfg hg p s fl hp hs hns 0 (Nat.zero_le _) 0 (Nat.zero_le _)
+
+/-- The same at the entry points `__archive_pathmatch` / `__archive_pathmatch_w`. -/
+theorem pathmatch_spec_fragment (cfg : Cfg) (hg : cfg.guardClass = true) (p s : List Nat) (fl : Flags)
+    (hp : Frag p) (hs : NoNul s) (hns : ∀ c ∈ s, c ≠ C_SLASH) :
+    pathmatch cfg (some p) (some s) fl = .yes ↔ Glob p s := by
+  have hpm := pm_spec_fragment cfg hg p s fl hp hs hns
+  obtain ⟨d, hd⟩ := rd_isSome (Nat.zero_le s.length)
+  have hdne : d ≠ C_SLASH := by
+    intro h; subst h
+    have hl := rd_lt hd (by decide)
+    exact hns _ (List.getElem_mem hl) (rd_getElem hd hl)
+  simp only [pathmatch]
+  cases p with
+  | nil =>
+    rw [matchAt_eq]; simp only [rd, List.length_nil, Nat.lt_irrefl, dite_false, if_true] 
+    have : rd s 0 = some d := hd
+    simp only [rd] at this
+    rw [glob_nil_iff]
+    cases s with
+    | nil => simp [Res.ofBool]
+    | cons a as =>
+      have ha : a ≠ 0 := hs a (by simp)
+      simp [Res.ofBool, ha]
+  | cons c q =>
+    have hc : rd (c :: q) 0 = some c := by simp [rd]
+    have hsk : ∀ x : List Nat, (∀ y ∈ x, y ≠ C_SLASH) → skipSlashes x 0 = some 0 := by
+      intro x hx
+      obtain ⟨e, he⟩ := rd_isSome (Nat.zero_le x.length)
+      have : e ≠ C_SLASH := by
+        intro h; subst h
+        have hl := rd_lt he (by decide)
+        exact hx _ (List.getElem_mem hl) (rd_getElem he hl)
+      rw [skipSlashes_eq]; simp [he, this]
+    have hpns : ∀ y ∈ c :: q, y ≠ C_SLASH := fun y hy => by
+      rcases hp y hy with h | h | h
+      · exact h.2.2.2.2.2.1
+      · omega
+      · omega
+    rcases hp c (by simp) with hpl | hq | hst
+    · obtain ⟨h0, h1, h2, h3, h4, h5, h6, h7⟩ := hpl
+      rw [matchAt_eq]; simp only [hc, h0, h7, if_false]
+      rw [matchBody_eq]; simp only [hc, hd, h1, h5, false_and, false_or, if_false]
+      split
+      · rw [unanch_noSlash cfg _ s fl hs hns 0 0 (Nat.zero_le _)]; exact hpm
+      · exact hpm
+    · subst hq
+      rw [matchAt_eq]; simp only [hc, if_false, (by decide : (63 : Nat) ≠ 0), (by decide : (63 : Nat) ≠ 94)]
+      rw [matchBody_eq]
+      simp only [hc, hd, false_and, false_or, if_false, (by decide : (63 : Nat) ≠ 42), (by decide : (63 : Nat) ≠ 47)]
+      split
+      · rw [unanch_noSlash cfg _ s fl hs hns 0 0 (Nat.zero_le _)]; exact hpm
+      · exact hpm
+    · subst hst
+      rw [matchAt_eq]; simp only [hc, if_false, (by decide : (42 : Nat) ≠ 0), (by decide : (42 : Nat) ≠ 94)]
+      rw [matchBody_eq]
+      simp only [hc, hd, false_and, true_or, if_true, if_false, (by decide : (42 : Nat) ≠ 47), hsk _ hpns, hsk _ hns]
+      exact hpm
+
+example : Glob [97, 42, 63] [97, 98, 99, 100] :=
+  .lit (by decide) (by decide) (.star 2 (.any .nil))
 
 /-! # Part 2 — inclusion / exclusion, time and owner criteria (archive_match.c) -/
 
